@@ -490,6 +490,7 @@ func (e *Env) callExpr(n *ast.CallExpr) Term {
 		}
 		e2 := *e
 		e2.s = e.old
+		e2.paramsEntry = true // in the entry state parameters have their entry values
 		return e2.tr(n.Args[0])
 	case "len":
 		a := e.tr(n.Args[0])
